@@ -52,14 +52,14 @@
   { \
     exit(b); \
   } \
-  memory->write8(a, b)
+  memory->write8((a) & 0xffffff, b)
 
 #define WRITE_RAM16(a, w) \
   if ((a) == (uint32_t)break_io) \
   { \
     exit(w); \
   } \
-  memory->write16(a, w)
+  memory->write16((a) & 0xffffff, w)
 
 #define PUSH_STACK(n)   memory->write8(reg_sp, (n) & 0xff); --reg_sp  // caution: "--" side-effects
 
